@@ -54,11 +54,14 @@ Definition rd_data_page (selfmade : bool) (cd : coldesc) (h : dph) (raw : bytes)
     | None => RBad "read_plain: buffer is smaller than requested size"
     end
   else if ((d_enc h =? E_PLAIN_DICT) || (d_enc h =? E_RLE_DICT) || (d_enc h =? E_RLE))%Z then
-    let! wr := (match cd_type cd with
-                | BOOLEAN => ROk (1, if (d_enc h =? E_RLE)%Z then dropN 4 rest else rest)
-                | _ => if (d_enc h =? E_RLE)%Z then ROk (cd_tlen cd, rest)
-                       else match rest with w :: r => ROk (w, r) | [] => RBad "read_byte past the end" end
-                end) in
+    (* dictionary indices (of any physical type, BOOLEAN included): the width is stored as a single byte;
+       RLE values: BOOLEAN has the implied width 1 and a 4-byte length in front, else width = type_length *)
+    let! wr := (if (d_enc h =? E_RLE)%Z then
+                  match cd_type cd with
+                  | BOOLEAN => ROk (1, dropN 4 rest)
+                  | _ => ROk (cd_tlen cd, rest)
+                  end
+                else match rest with w :: r => ROk (w, r) | [] => RBad "read_byte past the end" end) in
     let '(bw, body) := wr in
     if ((bw =? 8) || (bw =? 16) || (bw =? 32)) && selfmade then
       (* num = (varint >> 1) * 8 codes of bw bits, then values[:nval] *)
